@@ -2,7 +2,7 @@
 from checks import oracles
 from checks.conc_check import run_conc
 from checks.durable_check import replay_execution
-from checks.executor_common import STRICT, c09, c09_decided_but_suspended
+from checks.executor_common import STRICT, c09, c09_decided_but_suspended, c09_returns_promptly
 
 
 def decide_during_resume(ctx, execs):
@@ -23,16 +23,25 @@ def decide_during_resume(ctx, execs):
             for rep in range(2 if ctx.quick else 6):
                 items.append((p, {"seed": rng.randrange(1 << 30), "max_inv": 16, "api_latency": (0.3, 0.05)[rep % 2],
                                   "strategy": "pct" if rep % 2 else "random"}))
+    # the same race with checkpoint calls that take 75 virtual seconds: the decided call must not wait for the timer thread's call
+    # (the timer of the parked branch falls due while the sibling's last checkpoint call is in flight, so the timer thread's refresh
+    #  checkpoint is queued behind it and still outstanding when the sibling's completion decides the policy)
+    for w in (90, 100, 120, 140):
+        node = {"k": "par", "cfg": {"min": 1}, "caught": True, "branches": [[{"k": "wait", "s": w}, {"k": "step"}], [{"k": "step", "dur": 1.0}]]}
+        for rep in range(2 if ctx.quick else 6):
+            items.append(({"nodes": [node, {"k": "step"}]}, {"seed": rng.randrange(1 << 30), "max_inv": 16, "api_latency": 75.0,
+                                                            "hang_after": 600.0, "strategy": "pct" if rep % 2 else "random"}))
     out = run_campaign(ctx, items)
     for e in out:
-        for fn in (c09, c09_decided_but_suspended, oracles.c07):
+        for fn in (c09, c09_decided_but_suspended, c09_returns_promptly, oracles.c07):
             fn(ctx, e)
     from checks.conc_check import validate_exec_traces
     validate_exec_traces(ctx, out, STRICT["C09"], name="c09_resume_extrace")
 
 
 def run(ctx):
-    run_conc(ctx, invs=STRICT["C09"], oracle_fns=[c09, c09_decided_but_suspended, oracles.c07], post=decide_during_resume,
+    run_conc(ctx, invs=STRICT["C09"], oracle_fns=[c09, c09_decided_but_suspended, c09_returns_promptly, oracles.c07],
+             post=decide_during_resume,
              extra_rule="Oracle: one item per input in order; SUCCEEDED/FAILED items carry the branch's own return value / error "
                         "(ground truth recorded inside the branch body); the policy was decided when the call returned; the reason is "
                         "consistent with items and policy; at most max_concurrency bodies at once; the replayed BatchResult equals the first.")
